@@ -1318,7 +1318,7 @@ pub(super) fn import_to_document(
     comment_store,
     imported_members,
     NO_COMMENT_REFERENCE,
-    |m| text_pstr(heap, m.name),
+    |m| id_to_doc(heap, comment_store, m),
   )));
   documents.push(Document::Text(" from "));
   documents.push(Document::non_static_str(imported_module.pretty_print(heap)));
